@@ -377,6 +377,7 @@ import deteng
 import multieng
 import layouteng
 import showeng
+import renameeng
 eng_determinism = deteng.eng_determinism
 eng_copyprobe = probeeng.eng_copyprobe
 eng_valuetable = probeeng.eng_valuetable
@@ -388,6 +389,7 @@ eng_prog = engprog.eng_prog
 eng_multi = multieng.eng_multi
 eng_layouts = layouteng.eng_layouts
 eng_show = showeng.eng_show
+eng_rename = renameeng.eng_rename
 
 WF_NOTE = "the well-formedness of every accepted provider map (wfb) is proved (C05_accepted_maps_well_formed); the correspondence run still evaluates it per accepted case as a redundant check"
 SYNTH_NOTE = "explicit loop bounds of the model (acyc_fuel, solve_fuel) are validated by the correspondence run; the theorems hold for whatever fuel completes the run"
@@ -414,9 +416,9 @@ PROPS = {
     "C13": {"theorems": ["C13_whitelist_sound", "C13_whitelist_complete"], "engines": [eng_valuetable, eng_forms, eng_copyprobe, eng_prog, eng_layouts],
             "assumptions": ["expression trees are abstracted to the node kinds processValue distinguishes; the mapping from Go syntax to kinds is the table's (hand-written per form)",
                             "evaluation once at package initialisation is Go's semantics of package-level variables, not modelled"]},
-    "C14": {"theorems": ["C14_names_distinct", "C14_file_names_distinct", "C14_emitted_pass_names_fresh", "C14_invented_names_fresh", "C14_disambiguate_fresh", "C16_collision_order_independent"], "engines": [eng_prog, eng_multi, eng_layouts],
+    "C14": {"theorems": ["C14_names_distinct", "C14_file_names_distinct", "C14_emitted_pass_names_fresh", "C14_invented_names_fresh", "C14_disambiguate_fresh", "C16_collision_order_independent"], "engines": [eng_prog, eng_multi, eng_layouts, eng_rename],
             "assumptions": ["identifiers are ASCII in the model; non-ASCII names are outside the generated corpus"]},
-    "C15": {"level_text": "Machine-checked proof in Coq 8.16.1 over an executable model tied to the code by a per-run correspondence; the copy is proved to be the identity for any complete table and the table is regenerated from copyAST each run; the capture-avoiding renaming is exercised, not modelled (partial).", "theorems": ["C15_copy_identity", "C15_missing_field_is_lost"], "engines": [eng_copyprobe, eng_copydecls],
+    "C15": {"level_text": "Machine-checked proof in Coq 8.16.1 over an executable model tied to the code by a per-run correspondence; the copy is proved to be the identity for any complete table and the table is regenerated from copyAST each run; the renaming pass is modelled (Rename.v, tied by a hook that runs the real rewritePkgRefs) and proved never to capture; the qualification pass (package references) is exercised by the copy corpus and the layouts, not modelled (partial).", "theorems": ["C15_copy_identity", "C15_missing_field_is_lost", "C15_renaming_never_captures"], "engines": [eng_copyprobe, eng_copydecls, eng_rename],
             "assumptions": ["partial: the capture-avoiding renaming of rewritePkgRefs is exercised by the declaration corpus (structure + behaviour), not modelled in Coq",
                             "go/printer prints what copyAST returns; not modelled"]},
     "C16": {"level_text": "Machine-checked proof in Coq 8.16.1 over an executable model tied to the code by a per-run correspondence; order-independence of every map-driven decision of the model is proved; loader behaviour across layouts is sampled by byte-comparing runs (partial).", "theorems": ["C16_collision_order_independent", "C10_phase_order_independent", "C07_cycles_detected"], "engines": [eng_determinism],
@@ -433,5 +435,5 @@ PROPS = {
                             "proved parts: the modelled rules (funcOutput, field selection, cycle check) are total functions; zeroValue is total over the regenerated kind table"]},
 }
 
-HOOK_COMMITS = ["fc0854c", "b8ca607"]
+HOOK_COMMITS = ["fc0854c", "b8ca607", "2f47b21"]
 NOT_YET = {}
